@@ -3,7 +3,10 @@
 // the package-level variables it stores to; the run-time API roots; for every
 // function the parameters its results may be derived from (is the parameter, a
 // slice or a reinterpretation of it, or memory loaded through it: what a caller
-// gets back is then not memory of its own); and prints them as a Coq file
+// gets back is then not memory of its own); the parameters it may write through and
+// what the values stored there may be derived from; the parameters into whose byte
+// arrays it may write text IN PLACE (text is assigned by reference, so the bytes a
+// value holds may be another value's); and prints them as a Coq file
 // (coq/Gen/FootprintFacts.v).
 //
 //	footprint <repo-dir> > FootprintFacts.v
@@ -62,6 +65,8 @@ type pset uint64
 type derive struct {
 	sum     map[*ssa.Function][]pset
 	st      map[*ssa.Function]*storeSum
+	ti      map[*ssa.Function]pset              // text written in place: see textOf
+	dyn     map[*ssa.CallCommon][]*ssa.Function // textInto only: the possible callees of calls that are not static
 	changed bool
 }
 
@@ -128,6 +133,29 @@ func (d *derive) call(f *ssa.Function, c *ssa.CallCommon, nres, idx int, seen ma
 			for j, a := range c.Args {
 				if sm[idx]&(pset(1)<<uint(j)) != 0 {
 					r |= d.flows(f, a, seen)
+				}
+			}
+			return r
+		}
+	}
+	if cs := d.dyn[c]; len(cs) > 0 && c.StaticCallee() == nil && (!c.IsInvoke() || (c.Method.Pkg() != nil && own(c.Method.Pkg()))) {
+		// textInto: every possible callee described - what they hand back, by their summaries
+		args := c.Args
+		if c.IsInvoke() {
+			args = append([]ssa.Value{c.Value}, c.Args...)
+		}
+		described := true
+		for _, callee := range cs {
+			if sm, ok := d.sum[callee]; !ok || len(sm) != nres || len(callee.Params) != len(args) {
+				described = false
+			}
+		}
+		if described {
+			for _, callee := range cs {
+				for j, a := range args {
+					if d.sum[callee][idx]&(pset(1)<<uint(j)) != 0 {
+						r |= d.flows(f, a, seen)
+					}
 				}
 			}
 			return r
@@ -452,6 +480,175 @@ func (d *derive) storesOf(f *ssa.Function, sites map[ssa.CallInstruction][]*ssa.
 	}
 }
 
+// ---- into which parameters' byte arrays a function writes text IN PLACE --------------------
+// Text is a value: the library replaces a []byte - by a reference to other bytes, or by bytes it
+// has put into the caller's buffer - and never rewrites the bytes it finds in a value.  (Other
+// collections ARE reused in place by CopyTo, as documented; text is not: Set assigns it by
+// reference, so the bytes a value holds may be another value's.)  A may-analysis with the same
+// "derived from" relation: the function may write bytes into an existing byte array derived from
+// parameter p - an append to a []byte derived from p (which writes into its spare capacity), a
+// copy into it, a store to an element of it, a strconv.Append* / utf8.Append* onto it, a static
+// call of a described function that does (summaries substituted, fixpoint), a call of a method of
+// one of the module's interfaces or of a function value whose possible callees (class hierarchy
+// analysis) are all described, any other call that is handed memory in which bytes can be reached.
+func isBytes(t types.Type) bool {
+	switch u := t.Underlying().(type) {
+	case *types.Slice:
+		b, ok := u.Elem().Underlying().(*types.Basic)
+		return ok && b.Kind() == types.Uint8
+	case *types.Pointer:
+		if a, ok := u.Elem().Underlying().(*types.Array); ok {
+			b, ok := a.Elem().Underlying().(*types.Basic)
+			return ok && b.Kind() == types.Uint8
+		}
+	}
+	return false
+}
+
+// can a callee reach a byte array through a value of this type
+func reachesBytes(t types.Type, depth int) bool {
+	if depth > 6 {
+		return true
+	}
+	switch u := t.Underlying().(type) {
+	case *types.Basic:
+		return u.Kind() == types.UnsafePointer
+	case *types.Slice:
+		if isBytes(t) {
+			return true
+		}
+		return reachesBytes(u.Elem(), depth+1)
+	case *types.Pointer:
+		if b, ok := u.Elem().Underlying().(*types.Basic); ok && b.Kind() == types.Uint8 {
+			return true
+		}
+		return isBytes(t) || reachesBytes(u.Elem(), depth+1)
+	case *types.Array:
+		return reachesBytes(u.Elem(), depth+1)
+	case *types.Map:
+		return reachesBytes(u.Key(), depth+1) || reachesBytes(u.Elem(), depth+1)
+	case *types.Struct:
+		for i := 0; i < u.NumFields(); i++ {
+			if reachesBytes(u.Field(i).Type(), depth+1) {
+				return true
+			}
+		}
+		return false
+	case *types.Interface, *types.Signature, *types.Chan:
+		return true
+	}
+	return false
+}
+
+func (d *derive) textOf(f *ssa.Function, sites map[ssa.CallInstruction][]*ssa.Function) {
+	rec := func(t pset) {
+		if d.ti[f]|t != d.ti[f] {
+			d.ti[f] |= t
+			d.changed = true
+		}
+	}
+	subst := func(callee *ssa.Function, args []ssa.Value) bool {
+		cs, ok := d.ti[callee]
+		if !ok || len(callee.Params) != len(args) {
+			return false
+		}
+		for j := range args {
+			if cs&(pset(1)<<uint(j)) != 0 {
+				rec(d.val(f, args[j]))
+			}
+		}
+		return true
+	}
+	for _, b := range f.Blocks {
+		for _, ins := range b.Instrs {
+			switch x := ins.(type) {
+			case *ssa.Store:
+				// an element of a byte slice / byte array behind a pointer
+				for a := x.Addr; ; {
+					if ia, ok := a.(*ssa.IndexAddr); ok {
+						if isBytes(ia.X.Type()) {
+							rec(d.target(f, ia.X))
+							break
+						}
+						a = ia.X
+						continue
+					}
+					if fa, ok := a.(*ssa.FieldAddr); ok {
+						a = fa.X
+						continue
+					}
+					break
+				}
+			case ssa.CallInstruction:
+				c := x.Common()
+				if bi, ok := c.Value.(*ssa.Builtin); ok {
+					switch bi.Name() {
+					case "append", "copy":
+						if isBytes(c.Args[0].Type()) {
+							rec(d.val(f, c.Args[0]))
+						}
+					}
+					continue
+				}
+				if callee := c.StaticCallee(); callee != nil {
+					if subst(callee, c.Args) {
+						continue
+					}
+					pure, first := outside(callee.String())
+					if pure {
+						continue
+					}
+					if first && len(c.Args) > 0 {
+						if isBytes(c.Args[0].Type()) {
+							rec(d.val(f, c.Args[0]))
+						}
+						continue
+					}
+				} else if cs := sites[x]; len(cs) > 0 {
+					// a method of one of the module's interfaces, or a function value: every possible callee described
+					args := c.Args
+					if c.IsInvoke() {
+						if pure, _ := outside(c.Method.FullName()); pure {
+							continue
+						}
+						args = append([]ssa.Value{c.Value}, c.Args...)
+					}
+					all := !c.IsInvoke() || (c.Method.Pkg() != nil && own(c.Method.Pkg()))
+					for _, callee := range cs {
+						if _, ok := d.ti[callee]; !ok || len(callee.Params) != len(args) {
+							all = false
+						}
+					}
+					if all {
+						for _, callee := range cs {
+							subst(callee, args)
+						}
+						continue
+					}
+				} else if c.IsInvoke() {
+					if pure, _ := outside(c.Method.FullName()); pure {
+						continue
+					}
+					if c.Method.Pkg() != nil && own(c.Method.Pkg()) {
+						continue // an interface of the module with no implementation in it: the caller's own code
+					}
+				}
+				// not described: may write into whatever bytes it can reach
+				if c.IsInvoke() || c.StaticCallee() == nil {
+					if reachesBytes(c.Value.Type(), 0) {
+						rec(d.val(f, c.Value))
+					}
+				}
+				for _, a := range c.Args {
+					if reachesBytes(a.Type(), 0) {
+						rec(d.val(f, a))
+					}
+				}
+			}
+		}
+	}
+}
+
 type storeRow struct {
 	target int
 	from   []int
@@ -490,6 +687,38 @@ func storesThrough(fns []*ssa.Function, sites map[ssa.CallInstruction][]*ssa.Fun
 		}
 	}
 	return out
+}
+
+// the text-in-place facts: a fixpoint of their own, in which the results of calls of function values and of
+// methods of the module's interfaces are taken from the summaries of their possible callees as well
+func textInto(fns []*ssa.Function, allSites map[ssa.CallInstruction][]*ssa.Function) [][]int {
+	d := &derive{sum: map[*ssa.Function][]pset{}, ti: map[*ssa.Function]pset{}, dyn: map[*ssa.CallCommon][]*ssa.Function{}}
+	for x, cs := range allSites {
+		d.dyn[x.Common()] = cs
+	}
+	for _, f := range fns {
+		d.sum[f] = make([]pset, f.Signature.Results().Len())
+		d.ti[f] = 0
+	}
+	for round := 0; round < 64; round++ {
+		d.changed = false
+		for _, f := range fns {
+			d.function(f)
+			d.textOf(f, allSites)
+		}
+		if !d.changed {
+			break
+		}
+	}
+	text := make([][]int, len(fns))
+	for i, f := range fns {
+		for j := range f.Params {
+			if d.ti[f]&(pset(1)<<uint(j)) != 0 {
+				text[i] = append(text[i], j)
+			}
+		}
+	}
+	return text
 }
 
 func (d *derive) function(f *ssa.Function) {
@@ -704,11 +933,17 @@ func main() {
 
 	// (id, [(parameter t the function may write memory through, parameters the values stored there may be derived from)])
 	sites := map[ssa.CallInstruction][]*ssa.Function{}
+	// ... and for the text-in-place facts: the calls of function values as well, and EVERY possible callee
+	// (one that is not described makes the call an undescribed one)
+	allSites := map[ssa.CallInstruction][]*ssa.Function{}
 	for _, f := range fns {
 		if n := cg.Nodes[f]; n != nil {
 			for _, e := range n.Out {
 				if _, ok := id[e.Callee.Func]; ok && e.Site != nil && e.Site.Common().IsInvoke() {
 					sites[e.Site] = append(sites[e.Site], e.Callee.Func)
+				}
+				if e.Site != nil && e.Site.Common().StaticCallee() == nil {
+					allSites[e.Site] = append(allSites[e.Site], e.Callee.Func)
 				}
 			}
 		}
@@ -720,6 +955,7 @@ func main() {
 	fmt.Println("   is the caller's own code; functions writing through no parameter are left out *)")
 	fmt.Println("Definition fp_store_from : list (N * list (N * list N)) := [")
 	st := storesThrough(fns, sites)
+	text := textInto(fns, allSites)
 	rows = rows[:0]
 	for i := range fns {
 		if len(st[i]) == 0 {
@@ -734,6 +970,25 @@ func main() {
 			es = append(es, fmt.Sprintf("(%d, [%s])", r.target, strings.Join(ps, "; ")))
 		}
 		rows = append(rows, fmt.Sprintf("  (%d, [%s])", i, strings.Join(es, "; ")))
+	}
+	fmt.Println(strings.Join(rows, ";\n"))
+	fmt.Println("].")
+
+	// (id, parameters into whose byte arrays the function may write text in place)
+	fmt.Println("\n(* (id, parameters p such that the function may write bytes IN PLACE into a byte array derived from p: an append")
+	fmt.Println("   to a []byte derived from p (into its spare capacity), a copy into it, a store to an element of it, a call that")
+	fmt.Println("   does; receiver first, counted from 0; functions with none are left out *)")
+	fmt.Println("Definition fp_text_into : list (N * list N) := [")
+	rows = rows[:0]
+	for i := range fns {
+		if len(text[i]) == 0 {
+			continue
+		}
+		var ps []string
+		for _, j := range text[i] {
+			ps = append(ps, fmt.Sprint(j))
+		}
+		rows = append(rows, fmt.Sprintf("  (%d, [%s])", i, strings.Join(ps, "; ")))
 	}
 	fmt.Println(strings.Join(rows, ";\n"))
 	fmt.Println("].")
